@@ -270,7 +270,9 @@ def execute(case, stats):
             if case["entry"] == "bytes":
                 r = lib(BeaconConfig.from_bytes, data, allow=(ValueError,), what="BeaconConfig.from_bytes", **kwargs)
             elif case["entry"] == "file":
-                r = lib(BeaconConfig.from_file, io.BytesIO(data), allow=(ValueError,), what="BeaconConfig.from_file", **kwargs)
+                fobj = io.BytesIO(data)
+                fobj.seek(case["seed"] % (len(data) + 1))  # extraction must not depend on where the handle currently is
+                r = lib(BeaconConfig.from_file, fobj, allow=(ValueError,), what="BeaconConfig.from_file", **kwargs)
             else:
                 fd, path = tempfile.mkstemp(prefix="c01_", dir="/dev/shm")
                 with os.fdopen(fd, "wb") as f:
